@@ -77,19 +77,38 @@ pub fn leaves<Ctx: ScriptContext>(alpha: Alphabet, tap: bool) -> Vec<Terminal<St
     v
 }
 
+/// Observer of every constructor application the explorer attempts (accepted or refused).
+pub type Hook<'a, Ctx> = &'a (dyn Fn(&Terminal<String, Ctx>, &Result<Miniscript<String, Ctx>, miniscript::Error>) + Sync);
+
 fn try_ast<Ctx: ScriptContext>(
     t: Terminal<String, Ctx>,
-    att: &AtomicU64,
+    att: &(&AtomicU64, Option<Hook<Ctx>>),
     out: &mut Vec<Ms<Ctx>>,
 ) {
-    att.fetch_add(1, Ordering::Relaxed);
-    if let Ok(ms) = Miniscript::from_ast(t) {
-        out.push(Arc::new(ms));
+    att.0.fetch_add(1, Ordering::Relaxed);
+    match att.1 {
+        None => {
+            if let Ok(ms) = Miniscript::from_ast(t) {
+                out.push(Arc::new(ms));
+            }
+        }
+        Some(h) => {
+            let r = Miniscript::from_ast(t.clone());
+            h(&t, &r);
+            if let Ok(ms) = r {
+                out.push(Arc::new(ms));
+            }
+        }
     }
 }
 
 pub fn explore<Ctx: Cx>(max_nodes: usize, alpha: Alphabet, tap: bool) -> Terms<Ctx> {
-    let att = AtomicU64::new(0);
+    explore_hook::<Ctx>(max_nodes, alpha, tap, None)
+}
+
+pub fn explore_hook<Ctx: Cx>(max_nodes: usize, alpha: Alphabet, tap: bool, hook: Option<Hook<Ctx>>) -> Terms<Ctx> {
+    let att_ctr = AtomicU64::new(0);
+    let att = (&att_ctr, hook);
     let mut levels: Vec<Vec<Ms<Ctx>>> = vec![vec![]];
     // level 1: leaves
     let mut l1 = vec![];
@@ -194,7 +213,7 @@ pub fn explore<Ctx: Cx>(max_nodes: usize, alpha: Alphabet, tap: bool) -> Terms<C
         levels.push(cur);
     }
     let accepted = levels.iter().map(|l| l.len() as u64).sum();
-    Terms { levels, attempted: att.load(Ordering::Relaxed), accepted }
+    Terms { levels, attempted: att_ctr.load(Ordering::Relaxed), accepted }
 }
 
 impl<Ctx: Cx> Terms<Ctx> {
